@@ -248,3 +248,116 @@ def _get_api_cases(seed, tier):
 
 
 get_api_c.native_cases = staticmethod(_get_api_cases)
+
+
+# ---------------------------------------------------------------------------------------------- C14 / C13 on structured docstrings
+def _td(t):
+    return None if t is None else t.to_dict()
+
+
+def TYPE_SOURCE_OK(api, hint_api, pref_is_docstring):
+    """C14: hint under CODE, docstring type under DOCSTRING, the only available one otherwise (parameters and
+    results)."""
+    for fid, f in api.functions.items():
+        hf = hint_api.functions.get(fid)
+        if hf is None or len(hf.parameters) != len(f.parameters):
+            return False
+        for p, hp in zip(f.parameters, hf.parameters):
+            hint, doc = _td(hp.type), _td(p.docstring.type)
+            want = doc if (doc is not None and (hint is None or pref_is_docstring)) else hint
+            if _td(p.type) != want and not (hint is None and doc is None):
+                return False
+        docs = [r.type for r in f.result_docstrings]
+        if len(docs) <= len(hf.results):
+            for i, r in enumerate(f.results[: len(hf.results)]):
+                hint = _td(hf.results[i].type)
+                doc = _td(docs[i]) if i < len(docs) else None
+                want = doc if (doc is not None and (hint is None or pref_is_docstring)) else hint
+                if _td(r.type) != want:
+                    return False
+    return True
+
+
+def FRESH_DOCS(root, style, api):
+    """Documentation of every function / class obtained from a new parser per query (no cache history)."""
+    from types import SimpleNamespace
+    from safeds_stubgen.docstring_parsing import create_docstring_parser
+    out = {}
+    for fid, f in api.functions.items():
+        p = create_docstring_parser(style, root)
+        out[fid] = p.get_function_documentation(SimpleNamespace(fullname=fid.replace("/", ".")))
+    for cid, c in api.classes.items():
+        p = create_docstring_parser(style, root)
+        out[cid] = p.get_class_documentation(SimpleNamespace(fullname=cid.replace("/", ".")))
+    for fid, f in api.functions.items():
+        owner = fid.rsplit("/", 1)[0]
+        for prm in f.parameters:
+            p = create_docstring_parser(style, root)
+            out[fid + "/" + prm.name] = p.get_parameter_documentation(fid.replace("/", "."), prm.name,
+                                                                       owner if owner in api.classes else "")
+    for aid, a in api.attributes_.items():
+        owner = aid.rsplit("/", 1)[0]
+        p = create_docstring_parser(style, root)
+        out[aid] = p.get_attribute_documentation(owner, a.name)
+    return out
+
+
+@contract(_GA + "get_api", props=["C13", "C14"])
+class get_api_docs_c:
+    deductive = False
+
+    @clause(props=["C14"], mode="bounded")
+    def ensures_type_source(root, docstring_style, is_test_run, type_source_preference, type_source_warning, result):
+        from specs.fixtures import api_for
+        hint_api = api_for(str(root), "plaintext", is_test_run)
+        return TYPE_SOURCE_OK(result, hint_api, type_source_preference.name == "DOCSTRING")
+
+    @clause(props=["C14"], mode="bounded")
+    def ensures_warning_setting_irrelevant(root, docstring_style, is_test_run, type_source_preference, type_source_warning, result):
+        from safeds_stubgen.api_analyzer import TypeSourceWarning, get_api
+        import logging
+        other = TypeSourceWarning.IGNORE if type_source_warning.name == "WARN" else TypeSourceWarning.WARN
+        logging.disable(logging.CRITICAL)
+        try:
+            again = get_api(root, docstring_style, is_test_run, type_source_preference, other)
+        finally:
+            logging.disable(logging.NOTSET)
+        return again.to_dict() == result.to_dict()
+
+    @clause(props=["C13"], mode="bounded")
+    def ensures_docs_independent_of_query_order(root, docstring_style, is_test_run, type_source_preference, type_source_warning, result):
+        fresh = FRESH_DOCS(root, docstring_style, result)
+        for fid, f in result.functions.items():
+            if f.docstring != fresh[fid]:
+                return False
+            for prm in f.parameters:
+                d = fresh[fid + "/" + prm.name]
+                if prm.docstring.description != d.description:
+                    return False
+        for cid, c in result.classes.items():
+            if c.docstring != fresh[cid]:
+                return False
+        for aid, a in result.attributes_.items():
+            if a.docstring.description != fresh[aid].description:
+                return False
+        return True
+
+
+def _docs_cases(seed, tier):
+    import os, sys
+    from pathlib import Path
+    from safeds_stubgen.api_analyzer import TypeSourcePreference, TypeSourceWarning
+    from safeds_stubgen.docstring_parsing import DocstringStyle
+    sys.path[:] = [p for p in sys.path if os.path.abspath(p or ".") != "/verif"] + ["/verif"]
+    styles = ["NUMPYDOC"] if tier == "quick" else ["NUMPYDOC", "GOOGLE", "REST"]
+    for style in styles:
+        for pref in ("CODE", "DOCSTRING"):
+            yield {"kwargs": {"root": Path("/repo/tests/data/docstring_parser_package"), "docstring_style": DocstringStyle[style],
+                              "is_test_run": True, "type_source_preference": TypeSourcePreference[pref],
+                              "type_source_warning": TypeSourceWarning.WARN}}
+    yield {"kwargs": {"root": Path("/verif/fixtures/pkgs/kwpkg"), "docstring_style": DocstringStyle.NUMPYDOC,
+                      "is_test_run": True, "type_source_preference": TypeSourcePreference.DOCSTRING,
+                      "type_source_warning": TypeSourceWarning.IGNORE}}
+
+
+get_api_docs_c.native_cases = staticmethod(_docs_cases)
